@@ -12,11 +12,18 @@
 //! let _ = broadcast_queue_with::<usize, YieldingWait>(10, YieldingWait::new());
 //! let _ = broadcast_queue_with::<usize, BlockingWait>(10, BlockingWait::new());
 //! ```
+#[cfg(multiqueue2_verif)]
+use crate::verif_hooks::{yield_now, AtomicUsize};
+#[cfg(not(multiqueue2_verif))]
 use std::sync::atomic::AtomicUsize;
 use std::sync::atomic::Ordering::Relaxed;
+#[cfg(not(multiqueue2_verif))]
 use std::thread::yield_now;
 
 use crate::countedindex::{past, rm_tag};
+#[cfg(multiqueue2_verif)]
+use crate::verif_hooks::parking_lot;
+#[cfg(not(multiqueue2_verif))]
 extern crate parking_lot;
 
 pub const DEFAULT_YIELD_SPINS: usize = 50;
